@@ -145,6 +145,21 @@ impl Disk {
         out
     }
 
+    /// Bootstrap helper: make `path` a directory (mkdir -p).
+    pub fn put_dir(&mut self, path: &str) {
+        let mut cur = String::new();
+        for part in path.split('/').filter(|p| !p.is_empty()) {
+            cur.push('/');
+            cur.push_str(part);
+            if self.lookup(&cur).is_none() {
+                let ino = self.next_ino;
+                self.next_ino += 1;
+                self.inodes.insert(ino, Inode { is_dir: true, mode: 0o755, data: vec![], nlink: 2, mtime: 0 });
+                self.names.insert(cur.clone(), ino);
+            }
+        }
+    }
+
     /// Every regular file on the disk: (path, content), in path order.
     pub fn all_files(&self) -> Vec<(String, Vec<u8>)> {
         self.names.iter().filter(|(_, ino)| !self.inodes[*ino].is_dir).map(|(p, ino)| (p.clone(), self.inodes[ino].data.clone())).collect()
